@@ -6,6 +6,7 @@ effect-bearing fields, is the generated table `Gen/Claims.lean` (checked below b
 -/
 import PalomaModel.Model.ClaimHash
 import PalomaModel.Gen.Claims
+import PalomaModel.Gen.Auth
 
 namespace Paloma.ClaimHash
 open List
@@ -240,11 +241,24 @@ theorem preimage_injective (fs gs : List Field) (hs : sameShape fs gs = true)
   · simp [sameShape_length fs gs hs]
   · exact h
 
-/-- **same_key_same_fields.** With a collision-free hash (hypothesis), two claims of one type
-whose attestation keys (nonce, H(pre-image)) coincide agree on every hashed field. -/
-theorem same_key_same_fields (H : List Nat → Nat) (hH : Function.Injective H)
-    (fs gs : List Field) (hs : sameShape fs gs = true) (h : H (preimage fs) = H (preimage gs)) : fs = gs :=
-  preimage_injective fs gs hs (hH h)
+/-- **same_key_same_fields.** ASSUMPTION (named, pointwise): the hash does not collide on the two
+pre-images in question (`hnc`; no global injectivity is assumed — no 256-bit hash has it). Then two
+claims of one type whose attestation keys (nonce, H(pre-image)) coincide agree on every hashed field. -/
+theorem same_key_same_fields (H : List Nat → Nat) (fs gs : List Field) (hs : sameShape fs gs = true)
+    (hnc : H (preimage fs) = H (preimage gs) → preimage fs = preimage gs)
+    (h : H (preimage fs) = H (preimage gs)) : fs = gs :=
+  preimage_injective fs gs hs (hnc h)
+
+/-- **different_fields_different_key_or_collision.** The contrapositive without any assumption on the
+hash: claims of one type that differ in a hashed field either get different keys or exhibit a concrete
+hash collision between their two (different) pre-images. -/
+theorem different_fields_different_key_or_collision (H : List Nat → Nat) (fs gs : List Field)
+    (hs : sameShape fs gs = true) (hne : fs ≠ gs) :
+    H (preimage fs) ≠ H (preimage gs) ∨ (preimage fs ≠ preimage gs ∧ H (preimage fs) = H (preimage gs)) := by
+  by_cases h : H (preimage fs) = H (preimage gs)
+  · right
+    exact ⟨fun hp => hne (preimage_injective fs gs hs hp), h⟩
+  · left; exact h
 
 /-! ### the generated table (`Gen/Claims.lean`, regenerated from the source on every run) -/
 
@@ -341,6 +355,14 @@ theorem claim_types_never_pool (a b : String × Nat) (ha : a ∈ arities) (hb : 
   have : a = b := by
     exact nodup_map_inj (·.2) arities h2 a ha b hb hab
   exact hne (by rw [this])
+
+/-- **legacy_claim_types_cannot_be_submitted.** (decide over the regenerated message-server table
+`Gen/Auth`) the claim types excluded above as "decoding of old state only" are the request type of no
+Msg service method, and every claim type that is checked IS the request type of one. -/
+theorem legacy_claim_types_cannot_be_submitted :
+    (legacyTypes.all fun n => Paloma.Gen.Auth.handlers.all fun h => h.request != n) = true ∧
+    ((Paloma.Gen.Claims.claims.filter fun c => !legacyTypes.contains c.name).all fun c =>
+      Paloma.Gen.Auth.handlers.any fun h => h.request == c.name) = true := by decide
 
 /-- the three claim types the oracle handles are all present in the table -/
 theorem claim_types_present :
